@@ -18,6 +18,9 @@ from __future__ import annotations
 import fractions
 import itertools
 import json
+import multiprocessing
+import os
+import time
 import warnings
 
 import core
@@ -616,16 +619,64 @@ def ops_from_json(j):
     return out
 
 
+def judge_line(d, ops, answers):
+    return sx(['c13', 'judge', desc_sx(d), [op_sx(o) for o in ops], [ans_sx(a) for a in answers]])
+
+
+def _verdict(line, ans):
+    if ans[0] != 'judge':
+        raise core.MachineryError('judge refused %s: %r' % (line[:300], ans))
+    return None if ans[1] == 'ok' else int(ans[2])
+
+
 def judge_histories(histories):
     """histories: list of (desc, ops, answers) -> list of None | failing index (Lean's verdict)."""
-    lines = [sx(['c13', 'judge', desc_sx(d), [op_sx(o) for o in ops], [ans_sx(a) for a in answers]])
-             for d, ops, answers in histories]
-    out = []
-    for line, ans in zip(lines, core.Lean.run(lines)):
-        if ans[0] != 'judge':
-            raise core.MachineryError('judge refused %s: %r' % (line[:300], ans))
-        out.append(None if ans[1] == 'ok' else int(ans[2]))
-    return out
+    lines = [judge_line(d, ops, answers) for d, ops, answers in histories]
+    return [_verdict(l, a) for l, a in zip(lines, core.Lean.run(lines))]
+
+
+def _case_work(desc, ops):
+    """one case on the implementation -> answers, model request line, judge request lines"""
+    answers, gens = run_impl(desc, ops)
+    run_line = sx(['c13', 'run', desc_sx(desc), [op_sx(o) for o in ops]])
+    jlines = [judge_line(desc, ops, answers)] + [judge_line(d, o, a) for d, o, a in superseded_views(gens)]
+    return answers, run_line, jlines
+
+
+_WORK = None
+
+
+def _work_range(bounds):
+    return [_case_work(*_WORK[i]) for i in range(*bounds)]
+
+
+def _lean_range(bounds):
+    return core.Lean.run(_WORK[bounds[0]:bounds[1]])
+
+
+def _parallel(ctx, work, fn, chunk):
+    """thorough tier: forked workers over index ranges of `work` (inherited, nothing is pickled on the way in)"""
+    global _WORK
+    n = len(work)
+    if ctx.quick or n < 4 * chunk:
+        return None
+    _WORK = work
+    try:
+        with multiprocessing.get_context('fork').Pool(min(12, os.cpu_count() or 1)) as pool:
+            parts = pool.map(fn, [(i, min(i + chunk, n)) for i in range(0, n, chunk)])
+    finally:
+        _WORK = None
+    return [r for part in parts for r in part]
+
+
+def _impl_all(ctx, cases):
+    r = _parallel(ctx, cases, _work_range, 500)
+    return r if r is not None else [_case_work(d, o) for d, o in cases]
+
+
+def _lean_all(ctx, lines):
+    r = _parallel(ctx, lines, _lean_range, 5000)
+    return r if r is not None else core.Lean.run(lines)
 
 
 def violates(desc, ops):
@@ -693,19 +744,22 @@ def check_batch(ctx, cases, label, search=True):
     if not cases:
         return
     cases = [(desc, with_final(ops)) for desc, ops in cases]
-    impl, run_lines, judge_in, owners = [], [], [], []
-    for ci, (desc, ops) in enumerate(cases):
-        answers, gens = run_impl(desc, ops)
+    t0 = time.time()
+    results = _impl_all(ctx, cases)
+    ctx.extra['impl_s'] = round(ctx.extra.get('impl_s', 0) + time.time() - t0, 1)
+    impl, run_lines, judge_lines, owners = [], [], [], []
+    for ci, (answers, run_line, jlines) in enumerate(results):
         impl.append(answers)
-        run_lines.append(sx(['c13', 'run', desc_sx(desc), [op_sx(o) for o in ops]]))
-        judge_in.append((desc, ops, answers))
-        owners.append(ci)
-        for h in superseded_views(gens):
-            judge_in.append(h)
+        run_lines.append(run_line)
+        for jl in jlines:
+            judge_lines.append(jl)
             owners.append(ci)
-            ctx.count('superseded-object-views')
-    model = core.Lean.run(run_lines)
-    verdicts = judge_histories(judge_in)
+        ctx.count('superseded-object-views', len(jlines) - 1)
+    t0 = time.time()
+    both = _lean_all(ctx, run_lines + judge_lines)
+    ctx.extra['lean_s'] = round(ctx.extra.get('lean_s', 0) + time.time() - t0, 1)
+    model = both[:len(run_lines)]
+    verdicts = [_verdict(l, a) for l, a in zip(judge_lines, both[len(run_lines):])]
     bad = set()
     for ci, v in zip(owners, verdicts):
         if v is not None:
@@ -853,7 +907,43 @@ def family_volatile_value(ctx, n):
     return out
 
 
+def judge_selftest(ctx):
+    """Machinery check: the Lean judge must reject every single-answer perturbation of a correct history
+    (a judge that accepts everything would make the whole run vacuous)."""
+    base = ('dict', {'a': F(1), 'v': F(3)}, ['v'])
+    desc = ('range', ('mapped', base, {'x': 'a+v', 'a': '7'}), 'v', 5)
+    ops = [('get', 'x'), ('has', 'v'), ('has', 'zz'), ('iter',), ('len',), ('keys',), ('items',), ('asdict',), ('vol',),
+           ('get', 'zz'), ('change', {'v': F(10)}), ('get', 'x'), ('asdict',)]
+    answers, _ = run_impl(desc, ops)
+    perturbed = []
+    for i, a in enumerate(answers):
+        if a[0] == 'ok':
+            b = [('ok', a[1] + 1), ('error', 'parameter_missing')]
+        elif a[0] == 'bool':
+            b = [('bool', not a[1])]
+        elif a[0] == 'names':
+            b = [('names', a[1][1:]), ('names', a[1] + ['zz']), ('names', a[1] + a[1][:1])]
+        elif a[0] == 'len':
+            b = [('len', a[1] + 1), ('len', a[1] - 1)]
+        elif a[0] == 'dict':
+            b = [('dict', a[1][1:]), ('dict', [(a[1][0][0], a[1][0][1] + 1)] + a[1][1:]), ('dict', a[1] + [('zz', F(0))])]
+        elif a[0] == 'error':
+            b = [('ok', F(0))]
+        else:
+            continue
+        for x in b:
+            perturbed.append((i, answers[:i] + [x] + answers[i + 1:]))
+    verdicts = judge_histories([(desc, ops, answers)] + [(desc, ops, p) for _, p in perturbed])
+    if verdicts[0] is not None:
+        return      # the implementation itself is off on this history: reported by the ordinary families
+    for (i, p), v in zip(perturbed, verdicts[1:]):
+        if v != i:
+            raise core.MachineryError('judge self-test: perturbed answer %d %r was not rejected (verdict %r)' % (i, p[i], v))
+    ctx.extra['judge_selftest_rejected'] = len(perturbed)
+
+
 def run(ctx: core.Ctx):
+    judge_selftest(ctx)
     ctx.rule = ('stacks of real DictScope/MappedScope/RangeScope/JointScope objects: (1) exhaustive small stacks '
                 '(5 bottoms, 21 layer kinds, all nestings up to the tier bound) with two fixed call histories; '
                 '(2) random stacks of depth<=5 over <=6 names, 67 pooled expressions (+,-,*,**k, rational literals), '
